@@ -1,6 +1,9 @@
 import Juniper.Model.ParDo
 /-! Basic facts for the `parallel.Do` / `DoContext` model: the regenerated guards mean what the
 proofs assume (`Code.Sound`), the clamping arithmetic, and the shape of reachable states. -/
+set_option linter.unusedSimpArgs false
+set_option linter.unusedVariables false
+
 namespace Juniper.Proofs.ParDo
 open Juniper.Gen Juniper.Model.ParDo
 
